@@ -173,6 +173,25 @@ def install(tokens=False, digest="const", bins="const", caches="bypass"):
 
     _core.register_patch(set.union, _set_union)
 
+    # ---- S14: print() executes for real (CrossHair silences it; the writers under test print into StringIO handles)
+    _core._PATCH_REGISTRATIONS.pop(print, None)
+
+    # ---- S13: re.sub on (possibly symbolic) strings runs natively on realised arguments (CrossHair's own model of re.sub
+    # recurses forever on patterns that match the empty string, e.g. tbl_writer's r"[\[\]\(\);]*")
+    import re as _re
+
+    _real_sub = _re.sub
+
+    def _sub_native(pattern, repl, string, count=0, flags=0):
+        with NoTracing():
+            if callable(repl):
+                realized_repl = repl
+            else:
+                realized_repl = _core.deep_realize(repl)
+            return _real_sub(_core.deep_realize(pattern), realized_repl, _core.deep_realize(string), _core.deep_realize(count), _core.deep_realize(flags))
+
+    _core.register_patch(_re.sub, _sub_native)
+
     # ---- diagnostic: count realisations of symbolic ints
     _orig_realize = _b.SymbolicInt.__ch_realize__
 
